@@ -116,6 +116,7 @@ int main() {
       ans = "EXC unknown";
     }
     vh::emit(ans);
+    vh::flush();  // one write per case: after a hang or a crash the plug-in knows which line was being processed
   }
   vh::flush();
   return 0;
